@@ -386,10 +386,10 @@ def _strip_rebinds(out_tree, orig_names, orig_tree=None):
     Only as many leading candidates are removed as the body is longer than the body of the corresponding original function."""
     aliases = {}
 
-    def strip(body, params, module_level, extra):
+    def strip(body, params, module_level, extra, known):
         keep = []
         for st in body:
-            if extra > 0 and isinstance(st, ast.Assign) and len(st.targets) == 1 and isinstance(st.targets[0], ast.Name) and isinstance(st.value, ast.Name) and st.targets[0].id not in orig_names and \
+            if extra > 0 and isinstance(st, ast.Assign) and len(st.targets) == 1 and isinstance(st.targets[0], ast.Name) and isinstance(st.value, ast.Name) and st.targets[0].id not in known and \
                     (st.value.id in params or (module_level and st.value.id in dir(builtins))):
                 aliases[st.targets[0].id] = st.value.id
                 extra -= 1
@@ -398,12 +398,16 @@ def _strip_rebinds(out_tree, orig_names, orig_tree=None):
         return keep
     orig_funcs = [n for n in ast.walk(orig_tree) if isinstance(n, (ast.FunctionDef, ast.AsyncFunctionDef))] if orig_tree is not None else []
     out_funcs = [n for n in ast.walk(out_tree) if isinstance(n, (ast.FunctionDef, ast.AsyncFunctionDef))]
-    out_tree.body = strip(out_tree.body, set(), True, len(out_tree.body) - len(orig_tree.body) if orig_tree is not None else 10 ** 6)
+    out_tree.body = strip(out_tree.body, set(), True, len(out_tree.body) - len(orig_tree.body) if orig_tree is not None else 10 ** 6, orig_names)
     for i_, n in enumerate(out_funcs):
         a = n.args
         params = {p.arg for p in a.posonlyargs + a.args + a.kwonlyargs + ([a.vararg] if a.vararg else []) + ([a.kwarg] if a.kwarg else [])}
-        extra = (len(n.body) - len(orig_funcs[i_].body)) if len(orig_funcs) == len(out_funcs) else 10 ** 6
-        n.body = strip(n.body, params, False, extra) or [ast.Pass()]
+        paired = len(orig_funcs) == len(out_funcs)
+        extra = (len(n.body) - len(orig_funcs[i_].body)) if paired else 10 ** 6
+        # a name the corresponding original function mentions is not one the renamer introduced there (a name from elsewhere in the module may well be
+        # handed out again inside a function that does not mention it)
+        known = ({x.id for x in ast.walk(orig_funcs[i_]) if isinstance(x, ast.Name)} | {x.arg for x in ast.walk(orig_funcs[i_]) if isinstance(x, ast.arg)}) if paired else orig_names
+        n.body = strip(n.body, params, False, extra, known) or [ast.Pass()]
     return aliases
 
 
